@@ -38,7 +38,10 @@ OPS_W = [("drop_buses", 3), ("drop_lines", 3), ("drop_trafos", 3), ("drop_elemen
          ("decorate", 3), ("drop_elements_simple", 2), ("drop_switches_at_buses", 1),
          ("drop_measurements_at_elements", 1), ("drop_controllers", 1), ("drop_duplicated_measurements", 1),
          ("drop_inner_branches", 2), ("merge_parallel_line", 1), ("merge_same_bus_generation_plants", 1),
-         ("repl_to_line", 1)]
+         ("repl_to_line", 1), ("create_dangling", 3)]
+DANGLING = ["load", "loads", "gen", "sgens", "shunt", "storage", "ward", "xward", "line", "lines", "impedance", "dcline",
+            "trafo", "trafo3w", "switch_b", "switch_l", "switch_t", "switch_t3", "switches", "meas_bus", "meas_line",
+            "meas_trafo3w", "poly_cost", "pwl_cost", "poly_costs", "pwl_costs", "group", "group_refcol"]
 SIMPLE_DROP_ET = ["load", "sgen", "gen", "shunt", "impedance", "storage", "ward", "xward", "measurement", "poly_cost"]
 REINDEX_ET = ["line", "trafo", "trafo3w", "load", "sgen", "gen", "ext_grid", "switch", "shunt", "impedance",
               "measurement", "poly_cost", "storage", "xward", "ward", "group"]
@@ -71,6 +74,8 @@ def generate(rng, idx, tier):
             op.update(et=rng.choice(DROP_ET))
         elif f == "drop_elements_simple":
             op.update(et=rng.choice(SIMPLE_DROP_ET))
+        elif f == "create_dangling":
+            op.update(what=rng.choice(DANGLING), off=rng.choice([1, 5, 1000]))
         elif f in ("drop_measurements_at_elements", "drop_controllers"):
             op.update(et=rng.choice(["line", "trafo", "trafo3w", "bus", "load", "sgen", "gen"]), all=rng.random() < 0.3,
                       at_buses=rng.random() < 0.4)
@@ -383,6 +388,49 @@ def apply_op(net, op):
             return None, k, ""
         tb.drop_elements(net, et, es)
         return net, f"drop_elements:{et}", str(es)
+    if k == "create_dangling":
+        # a creation call whose reference does not exist: it must be refused (or at least leave nothing dangling)
+        w = op["what"]
+        missing = lambda tab: (max(net[tab].index) if len(net[tab]) else 0) + op["off"]
+        okb = ops.pick(net.bus.index.tolist(), a)
+        okb2 = ops.pick(net.bus.index.tolist(), b)
+        mb = missing("bus")
+        std = ops.LINE_STD[c % len(ops.LINE_STD)]
+        calls = {
+            "load": lambda: pp.create_load(net, mb, 0.1),
+            "loads": lambda: pp.create_loads(net, [okb, mb], 0.1),
+            "gen": lambda: pp.create_gen(net, mb, 0.1),
+            "sgens": lambda: pp.create_sgens(net, [mb, okb], 0.1),
+            "shunt": lambda: pp.create_shunt(net, mb, 0.1),
+            "storage": lambda: pp.create_storage(net, mb, 0.1, 1.0),
+            "ward": lambda: pp.create_ward(net, mb, 0.1, 0.1, 0.1, 0.1),
+            "xward": lambda: pp.create_xward(net, mb, 0.1, 0.1, 0.1, 0.1, 0.1, 0.1, 1.0),
+            "line": lambda: pp.create_line(net, okb, mb, 1.0, std),
+            "lines": lambda: pp.create_lines(net, [okb, okb], [okb2, mb], 1.0, std),
+            "impedance": lambda: pp.create_impedance(net, mb, okb, 0.01, 0.01, 1.0),
+            "dcline": lambda: pp.create_dcline(net, okb, mb, 0.1, 1.0, 0.1, 1.0, 1.0),
+            "trafo": lambda: pp.create_transformer(net, okb, mb, "25 MVA 110/20 kV"),
+            "trafo3w": lambda: pp.create_transformer3w(net, okb, okb2, mb, "63/25/38 MVA 110/20/10 kV"),
+            "switch_b": lambda: pp.create_switch(net, okb, mb, "b"),
+            "switch_l": lambda: pp.create_switch(net, okb, missing("line"), "l"),
+            "switch_t": lambda: pp.create_switch(net, okb, missing("trafo"), "t"),
+            "switch_t3": lambda: pp.create_switch(net, okb, missing("trafo3w"), "t3"),
+            "switches": lambda: pp.create_switches(net, [okb, okb], [missing("line"), missing("line") + 1], "l"),
+            "meas_bus": lambda: pp.create_measurement(net, "v", "bus", 1.0, 0.01, mb),
+            "meas_line": lambda: pp.create_measurement(net, "p", "line", 1.0, 0.01, missing("line"), side="from"),
+            "meas_trafo3w": lambda: pp.create_measurement(net, "p", "trafo3w", 1.0, 0.01, missing("trafo3w"), side="hv"),
+            "poly_cost": lambda: pp.create_poly_cost(net, missing("gen"), "gen", 1.0),
+            "pwl_cost": lambda: pp.create_pwl_cost(net, missing("sgen"), "sgen", [[0, 1, 1.0]]),
+            "poly_costs": lambda: pp.create_poly_costs(net, [missing("load"), missing("load") + 1], "load", 1.0),
+            "pwl_costs": lambda: pp.create_pwl_costs(net, [missing("gen")], "gen", [[[0, 1, 1.0]]]),
+            "group": lambda: pp.create_group(net, ["load"], [[missing("load")]], name="dangling"),
+            "group_refcol": lambda: pp.create_group(net, ["bus"], [["no such bus name"]], name="dangling_rc",
+                                                    reference_columns="name"),
+        }
+        if okb is None or okb2 is None:
+            return None, k, ""
+        calls[w]()
+        return net, f"create_dangling:{w}", ""
     if k == "drop_elements_simple":
         et = op["et"]
         es = _pick_many(net, et, a, 1 + b % 2)
